@@ -47,13 +47,14 @@ def gen_scalar(rng):
     return rng.choice((_dt.date(2020, 1, 2), _dt.date(1970, 1, 1), _dt.date(9999, 12, 31)))
 
 
-def gen_plain(rng, depth):
+def gen_plain(rng, depth, big=True):
     if depth <= 0 or rng.random() < 0.35:
         return gen_scalar(rng)
     if rng.random() < 0.5:
-        return [gen_plain(rng, depth - 1 if rng.random() < 0.7 else 0) for _ in range(rng.choice((0, 1, 2, 2, 3, 4, 9, 17, 40)))]
+        sizes = (0, 1, 2, 2, 3, 4, 9, 17, 40) if big else (0, 1, 2, 2, 3, 4)
+        return [gen_plain(rng, depth - 1 if rng.random() < 0.7 else 0, big) for _ in range(rng.choice(sizes))]
     keys = rng.sample(["a", "b", "id", "", "x y", 1, 2, (1, 2), None, -5, "0"], rng.choice((0, 1, 2, 3)))
-    return {k: gen_plain(rng, depth - 1) for k in keys}
+    return {k: gen_plain(rng, depth - 1, big) for k in keys}
 
 
 NON_PLAIN = [(1, 2), (), {1, 2}, frozenset({1}), decimal.Decimal("1.5"), fractions.Fraction(1, 2), complex(1, 2),
